@@ -88,13 +88,19 @@ def plan_arith(pid, tier, seed):
         dict(name="wide", profile="unchecked", bin="arith", dom="big", per_shard=6000,
              args=["--topic", ops, "--widths", "16,32,64,128", "--big", "--tier", "quick", "--seed", str(seed), "--n", n]),
     ]
+    # light sweep over ALL 488 layouts wider than 8 bits (every fractional-bit count 0..=width, both signs)
+    gens.append(dict(name="sweep", profile="unchecked", bin="sweep", dom="big", per_shard=5000,
+                     args=["--topic", ops, "--big", "--seed", str(seed), "--n", {"C01": "60", "C02": "24", "C06": "30", "C07": "30"}[pid]
+                           if tier == "quick" else "400"]))
     return dict(
-        bins=["arith"], profiles=["unchecked"], gens=gens, designs=[],
+        bins=["arith", "sweep"], profiles=["unchecked"], gens=gens, designs=[],
         nontrivial=nontrivial_arith,
         rule="8-bit layouts (all 18): every operand pair (thorough) or a 1/8 stratified subset plus the pairwise "
              "boundary lattice (quick), every value for unary operations; 16/32/64/128-bit layouts (22 per width: "
              "f in {0,1,2,w/4,w/2-1,w/2,w/2+1,3w/4,w-2,w-1,w} x both signs): pairwise boundary lattice, pairs with "
-             "correlated magnitudes and random bit patterns.  Each event records every form the API provides "
+             "correlated magnitudes and random bit patterns; plus a light sweep over ALL 488 layouts wider than 8 bits (every "
+             "fractional-bit count 0..=width, both signs) with a seeded sample of the lattice/correlated/random pairs per operation.  "
+             "Each event records every form the API provides "
              "(plain, checked, saturating, wrapping, overflowing) of one call and is judged by TLC against the exact "
              "result R of layer M (tla/sem/Sem.tla).  Non-trivial: both operands different from 0 (and the right "
              "operand different from 1); distinct by event content.",
@@ -115,6 +121,9 @@ def plan_conv(pid, tier, seed):
                          args=["--topic", topics[0], "--tier", tier, "--seed", str(seed)]))
     gens.append(dict(name="wide", profile="unchecked", bin="conv", dom="big", per_shard=5000,
                      args=["--topic", topics[1], "--big", "--tier", tier, "--seed", str(seed), "--n", n]))
+    # light sweep over all 506 layouts (each against i8 / i64 / u128, f32 / f64, I40F88 / U0F128, codec)
+    gens.append(dict(name="convall", profile="unchecked", bin="convsweep", dom="big", per_shard=5000,
+                     args=["--topic", topics[1], "--tier", "quick", "--seed", str(seed)]))
     rules = {
         "C03": "every ordered pair of the 18 8-bit layouts x (1/64 stratified value pairs + pairwise boundary lattice + values adjacent "
                "to the other operand; thorough: all 65 536 value pairs); 288 cross-width layout pairs (all 25 width pairs, f in {0,w/2,w} "
@@ -132,9 +141,10 @@ def plan_conv(pid, tier, seed):
                "struct and sequence forms, Wrapping<F> serde.",
     }
     return dict(
-        bins=["conv"], profiles=["unchecked"], gens=gens, designs=[],
+        bins=["conv", "convsweep"], profiles=["unchecked"], gens=gens, designs=[],
         nontrivial=lambda line: '"a":0,' not in line and '"a":[0],' not in line,
-        rule=rules[pid] + " Non-trivial: left operand / source value different from 0; distinct by event content.",
+        rule=rules[pid] + " Plus a light sweep over ALL 506 layouts (each against i8/i64/u128, f32/f64, I40F88/U0F128 and the codec). "
+             "Non-trivial: left operand / source value different from 0; distinct by event content.",
         assumptions=["TLC, BigInt.tla (self-checked) and the harness's JSON encoders are trusted",
                      "isize/usize are 64-bit in the harness (x86-64); ne bytes = le bytes on this target",
                      "wide layouts and floats are covered on generated operands, not exhaustively",
@@ -254,6 +264,9 @@ def plan_text(pid, tier, seed):
     topics = {"C08": "tokens,ties,dec,radix,malformed", "C09": "fmt"}[pid]
     gens = [dict(name="text", profile="unchecked", bin="text", dom="big", per_shard=2500 if pid == "C09" else 1500,
                  args=["--topic", topics, "--tier", tier, "--seed", str(seed)])]
+    # light sweep over all 506 layouts
+    gens.append(dict(name="textall", profile="unchecked", bin="text", dom="big", per_shard=2500,
+                     args=["--topic", "ties,dec,radix" if pid == "C08" else "fmt", "--all", "--tier", "quick", "--seed", str(seed)]))
     rules = {
         "C08": "106 layouts x radix 10/2/8/16: (a) tokeniser: every string of length <= 3 (thorough 5) over the alphabet "
                "{+,-,.,0,1,7,9,a,x,space} on two layouts, a list of 70 malformed / edge strings (empty, signs only, two points, "
@@ -272,7 +285,8 @@ def plan_text(pid, tier, seed):
     return dict(
         bins=["text"], profiles=["unchecked"], gens=gens, designs=[],
         nontrivial=lambda line: '"a":[0],' not in line and '"s":[]' not in line,
-        rule=rules[pid] + " Non-trivial: value / literal not empty or zero; distinct by event content.",
+        rule=rules[pid] + " Plus a light sweep (a few literals / values per layout) over ALL 506 layouts. "
+             "Non-trivial: value / literal not empty or zero; distinct by event content.",
         assumptions=["TLC, BigInt.tla and the harness's JSON encoders are trusted",
                      "format strings are compile-time in Rust: 14 flag templates x 6 traits x {precision, none} are instantiated; width and "
                      "precision are run-time arguments",
